@@ -31,6 +31,7 @@ CONSTANTS Fam,        \* "mac" | "cond" | "if" | "w64"
           BodyAlpha,  \* mac: items allowed in replacement lists
           InvAlpha,   \* mac: items allowed in the invocation text
           InvHead,    \* mac: the invocation text starts with a macro name (tokens before it would only be copied)
+          InvBal,     \* mac: the invocation text has balanced parentheses and commas only inside them
           VarWs,      \* mac: invocation tokens may lack preceding white space (stringification family)
           NameScheme, \* mac: 1 = macros f,g,fg   2 = macros f,ff,g
           MaxLines,   \* cond: directive lines
@@ -305,6 +306,12 @@ CloseOk(cur) == IF cur = <<>> THEN TRUE ELSE ~IsPu(Last(cur), <<"#", "#">>)     
 MkDef(i, k, body) == [name |-> Names[i], fl |-> k # "obj", params |-> KindParams(k), va |-> KindVa(k), body |-> body]
 NeedsSep(a, b) ==                 \* tokens that must be separated by white space (a ")" may end an invocation whose
   (a.k \in {"id", "num"} \/ IsPu(a, <<")">>)) /\ b.k \in {"id", "num"}       \* expansion ends in an identifier or number)
+RECURSIVE ParDepth(_)
+ParDepth(ts) == IF ts = <<>> THEN 0
+                ELSE ParDepth(Front(ts)) + (IF IsPu(Last(ts), <<"(">>) THEN 1 ELSE IF IsPu(Last(ts), <<")">>) THEN -1 ELSE 0)
+BalOk(cur, it) == IF ~InvBal THEN TRUE
+                  ELSE IF it \in {")", ","} THEN ParDepth(cur) > 0
+                  ELSE TRUE
 WsChoices(cur, it) ==
   IF ~VarWs \/ cur = <<>> THEN {TRUE}
   ELSE IF NeedsSep(Last(cur), ItemTok(it, TRUE)) THEN {TRUE} ELSE {TRUE, FALSE}
@@ -330,9 +337,11 @@ MacNext ==
      /\ \/ \E it \in InvAlpha \cap (MacroItems \cup {"a", "1", "(", ")", ",", "S1", "S2", "C1", "C2"}) :
              /\ Len(g.cur) < MaxInv
              /\ (InvHead /\ g.cur = <<>>) => it \in MacroItems
+             /\ BalOk(g.cur, it)
              /\ \E w \in WsChoices(g.cur, it) : g' = [g EXCEPT !.cur = Append(@, ItemTok(it, w))]
              /\ ph' = ph
         \/ /\ g.cur # <<>>
+           /\ InvBal => ParDepth(g.cur) = 0
            /\ g' = g
            /\ ph' = "done"
 MacRow ==
